@@ -29,7 +29,12 @@ where
     F: Fn(f64) -> f64,
 {
     let multiplier = 10_f64.powf(precision as f64);
-    fun(num * multiplier) / multiplier
+    let scaled = num * multiplier;
+    if !scaled.is_finite() {
+        // The scaled value is not representable: `num` has no digits below this precision.
+        return num;
+    }
+    fun(scaled) / multiplier
 }
 
 #[derive(Debug, Clone)]
